@@ -12,48 +12,9 @@
   path is an explicit `panic`: slice indexing `buffer[start..]`, `text.len() - rest.len()`,
   `copy_within(start.., 0)`, `matrix[i][s]`, `unreachable!()` for `nom::Err::Incomplete`.
 -/
-import LMV.Model.Nom
-import LMV.Model.Abc
-import LMV.Model.Mat
+import LMV.Model.ReaderCommon
 
 namespace LMV
-namespace Io
-
-inductive ErrKind where
-  | invalidData   -- Error::InvalidData
-  | io            -- Error::Io   (only "decoding error" / invalid UTF-8 arises from an in-memory stream)
-  | nom           -- Error::Nom
-deriving DecidableEq, Repr
-
-inductive Outcome (ρ : Type) where
-  | record (r : ρ)
-  | error (k : ErrKind)
-  | done
-  | panic (site : String)
-deriving Repr
-
-namespace Outcome
-def isPanic {ρ : Type} : Outcome ρ → Bool
-  | panic _ => true
-  | _ => false
-def isRecord {ρ : Type} : Outcome ρ → Bool
-  | record _ => true
-  | _ => false
-end Outcome
-
-/-- `Error::from(nom::Err<..>)`: `Incomplete => unreachable!()` -/
-def ofNomErr {α ρ : Type} : Nom.PRes α → Outcome ρ
-  | .incomplete => .panic "error.rs: unreachable!() for nom::Err::Incomplete"
-  | _ => .error .nom
-
-/-- a record of the two JASPAR formats -/
-structure CRecord (K : Nat) where
-  id : Bytes
-  description : Option Bytes
-  matrix : Mat Nat K
-
-end Io
-
 namespace Jaspar
 
 open Io Nom
@@ -66,20 +27,8 @@ def counts : Parser (List Nat) := preceded (opt space1) (sepList0 space1 u32)
 /-- `matrix_column`: `terminated(counts, line_ending)` -/
 def matrixColumn : Parser (List Nat) := terminated counts lineEnding
 
-/-- `for (i, x) in counts.into_iter().enumerate() { matrix[i][s] = x }`, rows `i, i+1, …`;
-    `none` is the index panic of `matrix[i][s]` -/
-def fillColumn {K : Nat} (m : Mat Nat K) (s : Nat) : Nat → List Nat → Option (Mat Nat K)
-  | _, [] => some m
-  | i, x :: xs => if i < m.rows ∧ s < K then fillColumn (m.set i s x) s (i + 1) xs else none
-
-/-- result of `build_matrix`: `Ok`, `Err(InvalidData)`, or an index panic -/
-inductive Built (K : Nat) where
-  | ok (m : Mat Nat K)
-  | invalid
-  | panic (site : String)
-
 /-- the loop of `build_matrix` over `input.zip(symbols)` -/
-def buildLoop {K : Nat} (m : Mat Nat K) : List (List Nat × Nat) → Built K
+def buildLoop {K : Nat} (m : Mat Nat K) : List (List Nat × Nat) → Built Nat K
   | [] => .ok m
   | (cs, s) :: rest =>
     if cs.length ≠ m.rows then .invalid
@@ -91,7 +40,7 @@ def buildLoop {K : Nat} (m : Mat Nat K) : List (List Nat × Nat) → Built K
 def symbols : List Nat := [0x41, 0x43, 0x47, 0x54].filterMap dna.fromAscii
 
 /-- `build_matrix(input, symbols)`: `DenseMatrix::new(input[0].len())`, then the loop -/
-def buildMatrix (cols : List (List Nat)) : Built dna.K :=
+def buildMatrix (cols : List (List Nat)) : Built Nat dna.K :=
   match cols with
   | [] => .panic "parse.rs: input[0]"
   | c0 :: _ => buildLoop ((Mat.empty : Mat Nat dna.K).resize c0.length 0) (cols.zip symbols)
